@@ -84,6 +84,8 @@ def run(ctx):
   rule_rank_blocks(ctx)
   rule_cycles(ctx)
   rule_rankdp(ctx)
+  rule_domain(ctx)
+  ctx.expect("R-C12-DOMAIN", 3, "two Igamc arguments of Serial + the divisor of Runs")
   ctx.expect("R-C12-RANKDP", 2, "recurrence + result of RankDistribution")
   ctx.expect("R-C12-CYCLES", 1, "the digit loop of RandomWalk")
   rule_minsize(ctx)
@@ -848,8 +850,17 @@ def rule_formula(ctx):
   f = repo.func(MOD, "Runs")
   w = sym.Walker(repo, f)
   w.run()
-  ret = [e.data["value"] for e in w.events if e.kind == "return" and e.node is not None]
+  allret = [e for e in w.events if e.kind == "return" and e.node is not None]
+  # the frequency prerequisite of 2.3.4 step 2 (`p = 0 when |pi - 1/2| >= 2 / sqrt(n)`) may precede the formula: a constant 0 returned under exactly that test
   pi = _td(ones, n)
+  pre = [e for e in allret if (isinstance(e.data["value"], Const) and isinstance(e.data["value"].v, (int, float)) and not isinstance(e.data["value"].v, bool) and e.data["value"].v == 0) or
+         (isinstance(e.data["value"], Poly) and e.data["value"].is_zero())]
+  ret = [e.data["value"] for e in allret if e not in pre]
+  for e in pre:
+    tau_ok = any(fc[0] == "cmp" and fc[1] == "GtE" and isinstance(fc[2], Poly) and isinstance(fc[3], Poly) and
+                 any(fc[2] == sym.mk("abs", pi - h_) for h_ in (_td(_c(1), _c(2)), P("lit", "0.5"), _fl("0.5"))) and ratfun.equal_terms(fc[3], _td(_c(2), sqrt(n)))[0] for fc in e.facts)
+    ctx.record(R, f.where, "prerequisite: p = 0 when |pi - 1/2| >= 2 / sqrt(n)", tau_ok, "2.3.4 step 2" if tau_ok else
+               "0 is returned under a test that is not |pi - 1/2| >= 2 / sqrt(n)")
   V = _call(U + "Runs", bits, n)
   want = erfc(_td(sym.mk("abs", V - n * 2 * pi * (1 - pi)), sqrt(n * 2) * 2 * pi * (1 - pi)))
   cmp_terms(ctx, R, f.where, "p = erfc(|V - 2n pi(1-pi)| / (2 sqrt(2n) pi(1-pi)))", as_poly(ret[0]) if ret else None, want, "2.3.4")
@@ -887,14 +898,14 @@ def rule_formula(ctx):
     cmp_terms(ctx, R, f.where, "p = igamc(k/2, sum (c - n p)^2/(n p) / 2)%s" % (" [k default]" if dflt else ""), as_poly(e.data["value"]), want, "chi-square")
   # The remaining statistics are compared at their *sinks* (the p-value that is appended / returned), where the walker has inlined every
   # intermediate value: local names, temporaries and statement order do not matter.  Opaque loop-carried lists are taken from the sink itself.
-  def sinks(w, label=None):
-    """(label parts, p-value Poly, event) for every `<list>.append((label, p))`."""
+  def sinks(w, label=None, all_paths=False):
+    """(label parts, p-value Poly, event) for every `<list>.append((label, p))` (one per statement, or one per path through it)."""
     out = []
     seen = set()
     for e in w.events:
       if e.kind == "mutate" and e.data["method"] == "append" and e.data["args"] and isinstance(e.data["args"][0], Seq) and len(e.data["args"][0].items) == 2:
         lab, pv = e.data["args"][0].items
-        if isinstance(pv, (Seq, Const, tuple)) or id(e.node) in seen:
+        if isinstance(pv, (Seq, Const, tuple)) or (id(e.node) in seen and not all_paths):
           continue
         if label is not None and label not in repr(lab):
           continue
@@ -965,17 +976,27 @@ def rule_formula(ctx):
   w.run()
   for tag, want_f, txt in (("p-value1", lambda v, mm: igamc(sym.mk("pow", _c(2), mm - 2), _td(v(mm) - v(mm - 1), _c(2))), "p1 = igamc(2^(m-2), (psi_m - psi_{m-1}) / 2)"),
                            ("p-value2", lambda v, mm: igamc(sym.mk("pow", _c(2), mm - 3), _td(v(mm) - v(mm - 1) * 2 + v(mm - 2), _c(2))), "p2 = igamc(2^(m-3), (psi_m - 2 psi_{m-1} + psi_{m-2}) / 2)")):
-    sk = sinks(w, tag)
+    sk = sinks(w, tag, all_paths=True)
     if not sk:
       ctx.record(R, f.where, txt, None, "no `%s` is appended" % tag)
       continue
+    # a clamp written as a branch gives a second sink whose argument is the constant 0: the formula is read off the path that keeps the difference
+    sk = sorted(sk, key=lambda t_: 0 if len(indexed_syms(t_[1])) == 1 else 1)
     lab, pv, e = sk[0]
     mm = label_value(lab)
     vs = indexed_syms(pv)
     if mm is None or len(vs) != 1:
       ctx.record(R, f.where, txt, False, "p-value is not a function of one psi^2 list and the m of its label")
       continue
-    cmp_terms(ctx, R, f.where, txt, pv, want_f(lambda j: sym.mk("idx", vs[0], j), mm), "2.11.4")
+    # a clamp of the difference at 0 (max(0, d)) is the identity wherever the formula is defined (d >= 0 in exact arithmetic): compared without it
+    pv_ = pv
+    if isinstance(pv_, Poly):
+      for t_ in list(pv_.all_atoms()):
+        if t_.kind == "max" and len(t_.args) == 2 and any(as_poly(a_).is_zero() or repr(a_) == "lit('0.0')" for a_ in t_.args):
+          other_ = [a_ for a_ in t_.args if not (as_poly(a_).is_zero() or repr(a_) == "lit('0.0')")]
+          if len(other_) == 1:
+            pv_ = sym.rebuild(pv_.deep_subst(t_, as_poly(other_[0])))
+    cmp_terms(ctx, R, f.where, txt, pv_, want_f(lambda j: sym.mk("idx", vs[0], j), mm), "2.11.4")
   psi_ok = None
   for e in w.events:
     if e.kind == "store" and not isinstance(e.data["value"], (Seq, Const, tuple)) and "sum" in repr(sym.resolve_sums(w, as_poly(e.data["value"]))):
@@ -2309,6 +2330,75 @@ def rule_rankdp(ctx):
       bad.append("the result is not res[-k:][::-1] + [sum(res[:-k])]: %s" % repr(v)[:140])
   okr = bool(rets) and not bad
   ctx.record(R, f.where, "result: the k highest ranks from the top, the rest lumped", okr, "; ".join(sorted(set(bad))[:2]) or "[res[r], .., res[r-k+1], sum(res[0 .. r-k])]")
+
+
+# ------------------------------------------------------------------ DOMAIN (arguments that must stay inside the domain of the special functions)
+def rule_domain(ctx):
+  """Two places where a statistic leaves the domain of the function it is handed to on admissible input - the result is then not a p-value in [0, 1]
+  but NaN or an exception:
+  (1) Serial: the arguments of Igamc are first and second *differences* of the psi^2 values, each a rounded floating-point quotient.  A difference that
+      is 0 in exact arithmetic can come out as -1e-16, and igamc(a, x) is NaN for x < 0: the difference must be clamped at 0 (max(0, .), abs).
+  (2) Runs: the statistic is divided by 2 sqrt(2n) pi (1 - pi).  For pi in {0, 1} (a constant string) the divisor is 0; NIST 2.3.4 step 2 excludes
+      these inputs by the frequency prerequisite |pi - 1/2| >= 2 / sqrt(n) -> p = 0, so the return must be dominated by a test on pi."""
+  R = "R-C12-DOMAIN"
+  repo = ctx.repo
+  # (1) Serial
+  f = repo.func(MOD, "Serial")
+  w = sym.Walker(repo, f)
+  w.run()
+  seen = {}
+  for e in w.events:
+    if e.kind != "call" or not str(e.data["name"]).endswith(":Igamc") or len(e.data["args"]) < 2 or not isinstance(e.data["args"][1], Poly):
+      continue
+    x = e.data["args"][1]
+    xa = x.as_atom()
+    num = as_poly(xa.args[0]) if xa is not None and xa.kind == "tdiv" and as_poly(xa.args[1]).as_int() is not None and as_poly(xa.args[1]).as_int() > 0 else x
+    na = num.as_atom()
+    clamped = na is not None and (na.kind == "abs" or (na.kind == "max" and any(as_poly(a_).is_zero() for a_ in na.args)))
+    signs = {c_ > 0 for c_ in num.t.values()} if na is None else {True}
+    key = norm(e.node)[:70] if e.node is not None else "Igamc"
+    # a two-term difference a - b of quantities computed by the same expression is exactly 0.0 whenever it is 0 in exact arithmetic (equal inputs give equal
+    # floats) and non-negative otherwise up to the rounding of two close numbers of one sign pattern; a combination of three or more rounded terms
+    # (a - 2b + c) has no such protection
+    known = any(fc[0] == "cmp" and isinstance(fc[2], Poly) and isinstance(fc[3], Poly) and
+                ((fc[1] in ("GtE", "Gt") and (fc[2] - fc[3] - num).is_zero()) or (fc[1] in ("LtE", "Lt") and (fc[3] - fc[2] - num).is_zero())) for fc in e.facts)
+    if clamped or known or signs == {True} or len(num.t) < 3:
+      seen.setdefault(key, None)
+    else:
+      seen[key] = ("the second argument of Igamc is the difference %s of rounded floating-point quantities and is not clamped at 0: where it is 0 in exact arithmetic it can "
+                   "come out negative, and the p-value is NaN (e.g. Serial(0b101011, 12): m=2 p-value2)" % repr(num)[:110])
+  if not seen:
+    ctx.incomplete(R, f.where, "Igamc arguments", "no Igamc call found")
+  for key, why in sorted(seen.items()):
+    ctx.record(R, f.where, key, why is None, why or "argument clamped at 0 or free of differences")
+  # (2) Runs
+  f = repo.func(MOD, "Runs")
+  w = sym.Walker(repo, f)
+  w.run()
+  bits, n = P("param", f.params()[0]), P("param", f.params()[1])
+  pi = sym.mk("tdiv", sym.mk("call", P("lit", "randomness_tests.util:BitCount"), bits), n)
+  n_div = 0
+  probs = []
+  for e in w.events:
+    if e.kind != "return" or not isinstance(e.data.get("value"), Poly):
+      continue
+    for t_ in e.data["value"].all_atoms():
+      if t_.kind != "tdiv" or pi.as_atom() not in as_poly(t_.args[1]).all_atoms():
+        continue
+      n_div += 1
+      D = as_poly(t_.args[1])
+      z0 = sym.rebuild(D.deep_subst(pi.as_atom(), Poly.const(0)))
+      z1 = sym.rebuild(D.deep_subst(pi.as_atom(), Poly.const(1)))
+      if not (z0.is_zero() or z1.is_zero()):
+        continue
+      guarded = any(pi.as_atom() in q_.all_atoms() for fc in e.facts for q_ in sym._cond_polys(fc) if isinstance(q_, Poly))
+      if not guarded:
+        probs.append("the statistic is divided by %s, which is 0 for a constant string (pi = 0 or 1), on a path with no test on pi: ZeroDivisionError instead of the "
+                     "p-value 0 that SP 800-22 2.3.4 step 2 assigns when |pi - 1/2| >= 2 / sqrt(n) (e.g. Runs(0, 100))" % repr(D)[:90])
+  if n_div == 0:
+    ctx.incomplete(R, f.where, "divisor of the runs statistic", "no division by a term of pi = BitCount(bits) / n found")
+  else:
+    ctx.record(R, f.where, "divisor 2 sqrt(2n) pi (1 - pi) is excluded from vanishing", not probs, "; ".join(sorted(set(probs))) or "the return is dominated by a test on pi")
 
 
 # ------------------------------------------------------------------ UNIVERSAL parameters (L by n, Q = 10 * 2^L)
